@@ -495,11 +495,87 @@ func c06Txtars(cfg Config, c *c06Ctx) {
 			}
 		}
 	}
+	c06PlainFiles(c, rng, pool, cfg.N(40, 400))
 	r.Note("wall: txtar archives: go build evy (waited) %.1fs, cases %.1fs", tBuild.Seconds(), time.Since(t0).Seconds())
+}
+
+// c06PlainFiles: the same through plain files: `evy fmt --write p0.evy p1.evy ...` (one call) must leave in
+// every file what formatting its text gives.
+func c06PlainFiles(c *c06Ctx, rng *rand.Rand, pool []c06PoolItem, n int) {
+	var srcs []string
+	for i := 0; i < n; i++ {
+		it := pool[rng.Intn(len(pool))]
+		src := it.src
+		if rng.Intn(2) == 0 {
+			if s := c06Compact(rng, it.formatted); c06SameTokens(s, it.formatted) {
+				src = s
+			}
+		}
+		if rng.Intn(4) == 0 {
+			src = strings.TrimSuffix(src, "\n")
+		}
+		srcs = append(srcs, src)
+	}
+	c06PlainRun(c, srcs)
+}
+
+func c06PlainRun(c *c06Ctx, srcs []string) {
+	r := c.r
+	dir, err := os.MkdirTemp("", "c06-plain-")
+	if err != nil {
+		return
+	}
+	defer os.RemoveAll(dir)
+	type pf struct{ file, src, want string }
+	var fs []pf
+	var names []string
+	for i, src := range srcs {
+		prog, err := safeParse(src)
+		if err != nil {
+			continue
+		}
+		want, err := safeFormat(prog)
+		if err != nil {
+			continue
+		}
+		f := filepath.Join(dir, fmt.Sprintf("p%d.evy", i))
+		if os.WriteFile(f, []byte(src), 0o644) != nil {
+			return
+		}
+		fs = append(fs, pf{f, src, want})
+		names = append(names, f)
+	}
+	if len(fs) == 0 {
+		return
+	}
+	exit, stderr, err := runEvyFmt(append([]string{"--write"}, names...)...)
+	if err != nil {
+		r.Violate(Violation{Kind: "correspondence", Key: "evy-binary", Detail: err.Error()})
+		return
+	}
+	for _, f := range fs {
+		r.Count("plainfile:"+f.src, fmtNontrivial(f.src))
+		r.Dist("plain-file-through-binary")
+		got, _ := os.ReadFile(f.file)
+		in := map[string]any{"kind": "plainfile", "source": f.src}
+		switch {
+		case exit != 0:
+			r.Violate(Violation{Kind: "property", Key: "plainfile-fmt-fails-on-accepted-program", Detail: fmt.Sprintf("evy fmt --write on %d accepted programs exits %d: %s", len(fs), exit, c19Tail(stderr, 300)), Input: in})
+			return
+		case string(got) != f.want:
+			r.Violate(Violation{Kind: "property", Key: "plainfile-differs-from-format", Detail: "evy fmt --write FILE.evy leaves a text that is not Format() of the file's text", Input: in, Impl: string(got), Model: f.want})
+		default:
+			r.Validated++
+		}
+	}
 }
 
 func c06ReplayTxtar(c *c06Ctx, raw any) bool {
 	m, ok := raw.(map[string]any)
+	if src, isStr := m["source"].(string); ok && m["kind"] == "plainfile" && isStr {
+		c06PlainRun(c, []string{src})
+		return true
+	}
 	if !ok || m["kind"] != "txtar" {
 		return false
 	}
